@@ -102,6 +102,63 @@ def r_modelfromfile(root):
     k, v, ev = run({"undeclared": 1}, reject=True)
     rep("an undeclared parameter stops the load", k == "raise" and v == "TextXError" and not [e for e in ev if e[0] == "load"], "with a parameter that check_params rejects model_from_file %s and %s; documented: the TextXError propagates and nothing is loaded" % ("raises " + str(v) if k == "raise" else "returns", "loads the file" if [e for e in ev if e[0] == "load"] else "loads nothing"))
     return inst, out
+def r_modelfromstr(root):
+    """C28.j  TextXMetaModel.model_from_str decided by evaluation with recording stand-ins, on meta-models with and without
+    scope providers / a global repository:
+      a text given together with a file name is loaded as that file: internal_model_from_file gets the file name, the text
+      (unchanged), encoding, debug flag, the caller's callback and the caller's parameters (checked first) - so errors,
+      locations and relative imports name the file;
+      a text without file name is parsed by a clone of the parser blueprint (text unchanged), every model of the load gets
+      the parameters before the caller's callback runs, and the model processors run afterwards with the snapshot of the
+      models cached before;  anything but a string is refused with TextXError."""
+    from sa.exprs import HS
+    out = []; inst = 0
+    t = load(root, MM); fn = find(t, "TextXMetaModel.model_from_str")
+    ps = [a.arg for a in fn.args.args]
+    if ps[:2] != ["self", "model_str"] or "file_name" not in ps or not fn.args.kwarg: raise AnalysisError("model_from_str: parameters %s" % ps)
+    fns = {k: v for k, v in helper_functions(root, MM, "TextXMetaModel.model_from_str").items() if k not in ("model_from_file", "internal_model_from_file", "model_from_str", "_call_model_processors", "_cached_model_ids")}
+    TEXT = "line one\r\nline two\n"
+    def run(file_name, providers, with_repo, text=TEXT, kwargs=None):
+        ev = []; kwargs = dict(kwargs if kwargs is not None else {"project_root": "../p", "n": 0})
+        user_cb = pyeval.PyFn(lambda m_: ev.append(("user callback", m_)))
+        model = HS({".kind": "model", "._tx_metamodel": "mm"})
+        def internal(file_name, encoding="utf-8", debug=None, pre_ref_resolution_callback=None, is_main_model=True, model_str=None, model_params=None, **k):
+            ev.append(("internal", file_name, encoding, debug, pre_ref_resolution_callback, model_str, model_params, is_main_model)); return model
+        def gmfs(model_str, file_name=None, debug=None, pre_ref_resolution_callback=None, is_main_model=True, encoding="utf-8", **k):
+            ev.append(("parse", model_str, file_name, debug, is_main_model))
+            if pre_ref_resolution_callback is not None: pre_ref_resolution_callback(model)
+            return model
+        blue = HS({".kind": "parser", ".clone": pyeval.PyFn(lambda: (ev.append(("clone",)), HS({".kind": "parser clone", ".get_model_from_str": pyeval.PyFn(gmfs)}))[1])})
+        me = HS({".kind": "metamodel", ".model_param_defs": HS({".check_params": pyeval.PyFn(lambda source, **kw: ev.append(("check", source, dict(kw))))}), ".internal_model_from_file": pyeval.PyFn(internal), ".debug": False,
+                 ".scope_providers": dict(providers), "._parser_blueprint": blue, "._cached_model_ids": pyeval.PyFn(lambda: "snapshot"), "._call_model_processors": pyeval.PyFn(lambda m_, c_=None: ev.append(("processors", m_, c_)))})
+        if with_repo: me["._tx_model_repository"] = HS({".kind": "repo"})
+        env = {"__functions__": fns, "__module__": t, "self": me, "model_str": text, "file_name": file_name, "encoding": "latin-1", "debug": "DBG", "pre_ref_resolution_callback": user_cb, fn.args.kwarg.arg: kwargs,
+               "ModelParams": pyeval.PyFn(lambda d=None, **k: HS({".kind": "ModelParams", ".given": dict(d if d is not None else k)})), "TextXError": pyeval.PyFn(lambda *a, **k: {".cls": "TextXError"}), "os": pyeval.TRUSTED["os"]}
+        for p_ in ps[2:]:
+            if p_ not in env: raise AnalysisError("model_from_str: unexpected parameter %s" % p_)
+        try: return "ret", pyeval.run_block(fn.body, env), ev, model, user_cb, kwargs
+        except pyeval.Raised as r_: return "raise", r_.cls, ev, model, user_cb, kwargs
+        except pyeval.Unsupported as u_: raise AnalysisError("model_from_str: outside the evaluated subset: %s" % u_)
+    W = "TextXMetaModel.model_from_str"
+    def rep(what, ok, msg):
+        nonlocal inst
+        inst += 1
+        for pr in ("C28", "C33", "C27"):
+            ob(pr, "C28.j", MM, W, what, ok)
+            if not ok: out.append(Finding(pr, "C28.j", MM, W, what, msg, witness="model_from_str(text, file_name='a.mdl') on a meta-model without scope providers, text with an error"))
+    for providers, with_repo in (({}, False), ({"*.*": "a provider"}, False), ({}, True)):
+        cfg = "a meta-model with%s scope providers and with%s global repository" % ("" if providers else "out", "" if with_repo else "out")
+        k, v, ev, model, cb, kw = run("models/a.mdl", providers, with_repo)
+        ints = [e for e in ev if e[0] == "internal"]; chk = [e for e in ev if e[0] == "check"]
+        ok = k == "ret" and v is model and len(ints) == 1 and not [e for e in ev if e[0] in ("parse", "clone")] and len(chk) == 1 and chk[0][2] == kw and ev.index(chk[0]) < ev.index(ints[0]) and ints[0][1:4] == ("models/a.mdl", "latin-1", "DBG") and ints[0][4] is cb and ints[0][5] == TEXT and isinstance(ints[0][6], dict) and ints[0][6].get(".given") == kw
+        rep("text with a file name, %s" % cfg, ok, "model_from_str(text, file_name='models/a.mdl', encoding='latin-1', debug='DBG', callback, project_root='../p', n=0) on %s %s after the steps %s; documented: the parameters are checked, then the text is loaded as that file - internal_model_from_file('models/a.mdl', 'latin-1', 'DBG', model_str=<the text unchanged>, the callback, the parameters) - whatever the meta-model's configuration" % (cfg, "returns the model" if k == "ret" and v is model else ("raises %s" % v if k == "raise" else "returns something else"), [(e[0],) + tuple(x_ if isinstance(x_, (str, type(None))) else "..." for x_ in e[1:4]) for e in ev]))
+        k, v, ev, model, cb, kw = run(None, providers, with_repo)
+        pr_ = [e for e in ev if e[0] == "parse"]; ucb = [e for e in ev if e[0] == "user callback"]; proc = [e for e in ev if e[0] == "processors"]
+        ok = k == "ret" and v is model and len(pr_) == 1 and pr_[0][1] == TEXT and pr_[0][2] is None and pr_[0][3] == "DBG" and not [e for e in ev if e[0] == "internal"] and len(ucb) == 1 and ucb[0][1] is model and isinstance(model.get("._tx_model_params"), dict) and model["._tx_model_params"].get(".given") == kw and len(proc) == 1 and proc[0][1] is model and proc[0][2] == "snapshot" and ev.index(ucb[0]) < ev.index(proc[0]) and [e for e in ev if e[0] == "clone"]
+        rep("text without file name, %s" % cfg, ok, "model_from_str(text, debug='DBG', callback, project_root='../p', n=0) on %s %s after the steps %s, the model's parameters are %s; documented: a clone of the parser blueprint parses the text unchanged, the model gets the parameters as given and the caller's callback runs once, then the model processors run with the snapshot of the cached models" % (cfg, "returns the model" if k == "ret" and v is model else ("raises %s" % v if k == "raise" else "returns something else"), [e[0] for e in ev], model.get("._tx_model_params", {}).get(".given") if isinstance(model.get("._tx_model_params"), dict) else model.get("._tx_model_params")))
+    k, v, ev, model, cb, kw = run(None, {}, False, text=b"bytes")
+    rep("anything but a string is refused", k == "raise" and v == "TextXError" and not [e for e in ev if e[0] in ("parse", "internal")], "model_from_str(b'bytes') %s; documented TextXError before anything is parsed" % ("raises %s" % v if k == "raise" else "is accepted"))
+    return inst, out
 def r_initobj(root):
     out = []; inst = 0
     t = load(root, MM); io = find(t, "TextXMetaModel._init_obj_attrs")
@@ -266,4 +323,79 @@ def r_modelparams(root):
     rep("all given parameters are exposed", k == "ret" and sorted(v) == ["n", "outDir", "strict"] and (k2, v2) == ("ret", 3), "the parameters exposed by the model are %s (%s of them); given were n, outDir, strict" % (sorted(v) if k == "ret" else v, v2), "ModelParams")
     k, v = call(mp, "__getitem__", "missing")
     rep("an absent parameter is a KeyError", k == "raise" and v == "KeyError", "reading a parameter that was not given %s" % ("returns %r" % (v,) if k == "ret" else "raises %s" % v), "ModelParams")
+    return inst, out
+
+def r_internalload(root):
+    """C17.o  TextXMetaModel.internal_model_from_file decided by evaluation with recording stand-ins (parser blueprint, open(),
+    the interpreted ModelRepository table):
+      the text - read from the file with the caller's encoding, or given by the caller - reaches a clone of the parser
+      blueprint unchanged (also '\\r\\n' line ends and a trailing blank), with the absolute file name, debug flag, encoding
+      and is_main_model; every model of the load gets the caller's parameters (the same object) before the caller's
+      callback runs; the model processors run afterwards with the snapshot of the models cached before;
+      with a global repository a cached file is returned without parsing (also when that model object is falsy), and a
+      model parsed without a caller's callback is registered in the repository's table of all models under its file name
+      and gets a repository sharing that table."""
+    from sa.exprs import HS
+    out = []; inst = 0
+    t = load(root, MM); fn = find(t, "TextXMetaModel.internal_model_from_file")
+    ps = [a.arg for a in fn.args.args]
+    want_ps = ["self", "file_name", "encoding", "debug", "pre_ref_resolution_callback", "is_main_model", "model_str", "model_params"]
+    if ps != want_ps: raise AnalysisError("internal_model_from_file: parameters %s" % ps)
+    fns = {k: v for k, v in helper_functions(root, MM, "TextXMetaModel.internal_model_from_file").items() if k not in ("model_from_file", "internal_model_from_file", "model_from_str", "_call_model_processors", "_cached_model_ids")}
+    ts = load(root, "textx/scoping/__init__.py"); cds = {c.name: c for c in ts.body if isinstance(c, ast.ClassDef)}
+    fns_s = {f.name: f for f in ts.body if isinstance(f, ast.FunctionDef)}
+    FILE_TEXT = "from the file\\r\\nsecond line \\n"; GIVEN = "given text\\r\\nsecond line \\n"
+    class _Falsy(HS):
+        def __bool__(s): return False
+        def __len__(s): return 0
+    def run(model_str=None, callback=True, repo=False, cached=None, main=True):
+        ev = []
+        model = HS({".kind": "model", "._tx_metamodel": "mm", "._tx_filename": "/abs/models/a.mdl"})
+        user_cb = pyeval.PyFn(lambda m_: ev.append(("user callback", m_, m_.get("._tx_model_params")))) if callback else None
+        def gmfs(model_str, file_name=None, debug=None, pre_ref_resolution_callback=None, is_main_model=True, encoding="utf-8", **k):
+            ev.append(("parse", model_str, file_name, debug, encoding, is_main_model))
+            if pre_ref_resolution_callback is not None: pre_ref_resolution_callback(model)
+            return model
+        blue = HS({".kind": "parser", ".get_model_from_str": pyeval.PyFn(lambda *a, **k: ev.append(("blueprint used directly",))), ".clone": pyeval.PyFn(lambda: (ev.append(("clone",)), HS({".kind": "parser clone", ".get_model_from_str": pyeval.PyFn(gmfs)}))[1])})
+        me = HS({".kind": "metamodel", ".debug": False, "._parser_blueprint": blue, "._cached_model_ids": pyeval.PyFn(lambda: "snapshot"), "._call_model_processors": pyeval.PyFn(lambda m_, c_=None: ev.append(("processors", m_, c_)))})
+        env0 = {"__classdefs__": cds, "__functions__": fns_s, "abspath": pyeval.PyFn(lambda p_: p_)}
+        rp = None
+        if repo:
+            rp = pyeval.instantiate("GlobalModelRepository", [], {}, env0); me["._tx_model_repository"] = rp
+            if cached is not None: rp[".all_models"][".filename_to_model"]["/abs/models/a.mdl"] = cached
+        def open_(name, mode="r", encoding=None, **k):
+            ev.append(("open", name, mode, encoding))
+            return {".__enter__": pyeval.PyFn(lambda: {".read": pyeval.PyFn(lambda: FILE_TEXT)}), ".__exit__": pyeval.PyFn(lambda *a: ev.append(("close",)))}
+        params = HS({".kind": "ModelParams"})
+        env = {"__classdefs__": cds, "__functions__": dict(fns_s, **fns), "__module__": t, "self": me, "file_name": "models/a.mdl", "encoding": "latin-1", "debug": "DBG", "pre_ref_resolution_callback": user_cb, "is_main_model": main,
+               "model_str": model_str, "model_params": params, "abspath": pyeval.PyFn(lambda p_: p_ if p_.startswith("/") else "/abs/" + p_), "open": pyeval.PyFn(open_), "os": pyeval.TRUSTED["os"],
+               "GlobalModelRepository": pyeval.ClassRef("GlobalModelRepository"), "__keep__": ("abspath", "GlobalModelRepository")}
+        try: return "ret", pyeval.run_block(fn.body, env), ev, model, params, rp
+        except pyeval.Raised as r_: return "raise", r_.cls, ev, model, params, rp
+        except pyeval.Unsupported as u_: raise AnalysisError("internal_model_from_file: outside the evaluated subset: %s" % u_)
+    W = "TextXMetaModel.internal_model_from_file"
+    def rep(what, ok, msg, props_=("C17", "C27", "C34", "C06", "C22")):
+        nonlocal inst
+        inst += 1
+        for pr in props_:
+            ob(pr, "C17.o", MM, W, what, ok)
+            if not ok: out.append(Finding(pr, "C17.o", MM, W, what, msg))
+    def steps(ev): return [(e[0],) + tuple(x_ for x_ in e[1:] if isinstance(x_, (str, bool, type(None)))) for e in ev]
+    for what, given, main in (("the text is read from the file", None, True), ("the text is given by the caller", GIVEN, True), ("an imported file (not the main model)", None, False), ("the text given by the caller is empty", "", True)):
+        k, v, ev, model, params, _rp = run(given, main=main)
+        pr_ = [e for e in ev if e[0] == "parse"]; ucb = [e for e in ev if e[0] == "user callback"]; proc = [e for e in ev if e[0] == "processors"]; op = [e for e in ev if e[0] == "open"]
+        text = given if given is not None else FILE_TEXT
+        ok = (k == "ret" and v is model and len(pr_) == 1 and pr_[0][1:] == (text, "/abs/models/a.mdl", "DBG", "latin-1", main) and [e for e in ev if e[0] == "clone"] and not [e for e in ev if e[0] == "blueprint used directly"]
+              and (op == [("open", "/abs/models/a.mdl", "r", "latin-1")] if given is None else not op) and len(ucb) == 1 and ucb[0][1] is model and ucb[0][2] is params and len(proc) == 1 and proc[0][1] is model and proc[0][2] == "snapshot" and ev.index(pr_[0]) < ev.index(proc[0]))
+        rep(what, ok, "internal_model_from_file('models/a.mdl', 'latin-1', 'DBG', callback, is_main_model=%s, model_str=%s, parameters) %s after the steps %s; documented: %s, a clone of the parser blueprint parses exactly that text (line ends and blanks untouched: positions, line and column numbers refer to it) under the absolute file name with the debug flag, the encoding and is_main_model, the model gets the caller's parameters before the caller's callback runs, then the model processors run with the snapshot" % (main, "None" if given is None else "<text>", "returns the model" if k == "ret" and v is model else ("raises %s" % v if k == "raise" else "returns something else"), steps(ev), "the file is opened once with the caller's encoding" if given is None else "no file is opened"))
+    # ---- with a global repository
+    k, v, ev, model, params, rp = run(None, callback=False, repo=True)
+    tab = rp[".all_models"][".filename_to_model"] if rp is not None else {}
+    mrp = model.get("._tx_model_repository")
+    ok = k == "ret" and v is model and tab.get("/abs/models/a.mdl") is model and isinstance(mrp, pyeval.Inst) and mrp.get(".all_models") is rp.get(".all_models") and model.get("._tx_model_params") is params
+    rep("global repository, no caller's callback: the parsed model is registered", ok, "with a global repository and no callback the load %s; the repository's table holds %s, the model's own repository %s the table, its parameters are %s; documented: the model is registered under its file name in the table of all models, gets a repository that shares that table, and the caller's parameters" % ("returns the model" if k == "ret" and v is model else ("raises %s" % v if k == "raise" else "returns something else"), sorted(tab), "shares" if isinstance(mrp, pyeval.Inst) and mrp.get(".all_models") is rp.get(".all_models") else "does not share", "the caller's" if model.get("._tx_model_params") is params else "not the caller's"), props_=("C17", "C27"))
+    for what, cached in (("a cached file", HS({".kind": "model", ".tag": "cached"})), ("a cached file whose model object is falsy (user class defining __len__)", _Falsy({".kind": "model", ".tag": "cached falsy"}))):
+        k, v, ev, model, params, rp = run(None, callback=False, repo=True, cached=cached)
+        ok = k == "ret" and v is cached and not [e for e in ev if e[0] in ("parse", "open")] and rp[".all_models"][".filename_to_model"].get("/abs/models/a.mdl") is cached
+        rep("global repository: %s is returned without parsing" % what, ok, "with a global repository that holds /abs/models/a.mdl (%s) the load %s after the steps %s; documented: that very model is returned, nothing is read or parsed" % (what, "returns the cached model" if k == "ret" and v is cached else ("raises %s" % v if k == "raise" else "returns another model"), steps(ev)), props_=("C17", "C16"))
     return inst, out
